@@ -320,12 +320,13 @@ Proof.
   - destruct (IH H) as [a [b E]]. exists (y ++ a), b. now rewrite E, append_assoc.
 Qed.
 
+Lemma regroup a P s Q z : a ++ (P ++ s ++ Q) ++ z = (a ++ P) ++ s ++ (Q ++ z).
+Proof. now rewrite !append_assoc. Qed.
+
 Lemma junk_reported b text c : List.In (Code (Junk text) c) b ->
   exists pre post, msg (expected b) = pre ++ strip text ++ post.
 Proof.
   intros H. apply (in_map msg_of) in H. destruct (cat_all_in _ _ H) as [a [z E]].
-  unfold expected. simpl msg. rewrite E. simpl msg_of.
-  destruct (contains_char "="%char text); unfold msg_multiple, msg_ignored.
-  - eexists (a ++ _), (_ ++ z). rewrite !append_assoc. reflexivity.
-  - eexists (a ++ _), (_ ++ z). rewrite !append_assoc. reflexivity.
+  unfold expected. cbn [msg]. rewrite E. cbn [msg_of].
+  destruct (contains_char "="%char text); unfold msg_multiple, msg_ignored; rewrite regroup; eauto.
 Qed.
